@@ -72,7 +72,8 @@ ON_ERROR = ['return', 'raise']
 VERBOSE = [0, 3]
 MODES = ['native', 'pytest']
 IMPORT_KINDS = ['good', 'raises', 'syntax', 'missing', 'packaged', 'packaged_index0', 'good_twice', 'rotates_syspath',
-                'root_first_on_syspath', 'root_inside_syspath', 'root_first_on_syspath_index0']
+                'root_first_on_syspath', 'root_inside_syspath', 'root_first_on_syspath_index0',
+                'raises_root_first_on_syspath', 'raises_root_inside_syspath', 'syntax_root_first_on_syspath']
 
 
 def required_cells(tier):
@@ -208,6 +209,10 @@ def make_import_targets(root):
     t['root_first_on_syspath'] = w('onpath_zz/impon_zz.py', 'W = 4\n')
     t['root_inside_syspath'] = t['root_first_on_syspath']
     t['root_first_on_syspath_index0'] = t['root_first_on_syspath']
+    # the same, but the import fails: the entry that was there before must still be there afterwards
+    t['raises_root_first_on_syspath'] = w('onpathbad_zz/impbad_zz.py', 'raise RuntimeError("import fails")\n')
+    t['raises_root_inside_syspath'] = t['raises_root_first_on_syspath']
+    t['syntax_root_first_on_syspath'] = w('onpathsyn_zz/impsynb_zz.py', 'def (:\n')
     return t
 
 
@@ -226,9 +231,9 @@ def check_imports(ctx):
             if kind != 'good_twice':
                 del sys.modules[name]
         saved_path = list(sys.path)
-        if kind.startswith('root_first'):
+        if 'root_first' in kind:
             sys.path.insert(0, os.path.dirname(p))
-        elif kind.startswith('root_inside'):
+        elif 'root_inside' in kind:
             sys.path.insert(len(sys.path) // 2, os.path.dirname(p))
         try:
             result, ok = monitored(ctx, 'utils.import_module_from_path(%s)' % kind,
